@@ -53,7 +53,14 @@ FmtField(t, v, c) ==
     [] t = "uuuu" -> SPad(v.y, 4) [] t = "uuu" -> SPad(v.y, 3) [] t = "uu" -> SPad(v.y, 2) [] t = "u" -> SPad(v.y, 1)
     [] t = "MM" -> Pad(v.m, 2) [] t = "M" -> Pad(v.m, 1)
     [] t = "dd" -> Pad(v.d, 2) [] t = "d" -> Pad(v.d, 1)
+    \* name fields print the culture's names (c.names, given with the event): a month in its genitive form exactly when the pattern
+    \* also has a day-of-month field, a day of the week by its number (Monday = 1), the calendar by its id
+    [] t = "MMMM" -> IF c.hasDay THEN c.names.longGen[v.m] ELSE c.names.long[v.m]
+    [] t = "MMM" -> IF c.hasDay THEN c.names.shortGen[v.m] ELSE c.names.short[v.m]
+    [] t = "dddd" -> c.names.longDay[v.dow] [] t = "ddd" -> c.names.shortDay[v.dow]
+    [] t = "c" -> c.names.cal
     [] OTHER -> LitTable[t]
+NameVocab == {"MMMM", "MMM", "dddd", "ddd", "c"}
 FieldVocab == {"HH", "H", "hh", "h", "mm", "m", "ss", "s", "tt", "t", ":", "/", "yyyy", "yy", "uuuu", "uuu", "uu", "u", "MM", "M", "dd", "d"}
                 \cup FixedFrac \cup OptBare \cup DotFixed \cup DotOpt \cup DOMAIN LitTable
 TimeOnly == {"HH", "H", "hh", "h", "mm", "m", "ss", "s", "tt", "t"} \cup FixedFrac \cup OptBare \cup DotFixed \cup DotOpt
